@@ -346,6 +346,19 @@ theorem grow_tab (s : State) (hc : s.cur < s.secs.length) (t : BitVec 64) (re : 
     (grow_newReloc_emit (addAddress s t) hAf.cur re bytes
       ⟨h.sec.trans hA.1.symm, h.off.trans hA.2.1.symm, h.size, h.val, h.pos, h.fmt, h.tab, h.zero⟩)
 
+theorem grow_x86MemAbsM (s : State) (hc : s.cur < s.secs.length) (sh : AShape) (a : AddrT) (t : BitVec 64) :
+    Grow s (x86MemAbsM s sh a t).1 := by
+  unfold x86MemAbsM
+  dsimp only
+  repeat' split
+  all_goals first
+    | exact grow_refl s
+    | exact grow_emit s _
+    | exact grow_newReloc_emit s hc _ _ ⟨rfl, rfl, (by simp only [Reloc.rgn, List.length_append, zeros_length]; omega),
+        (by dsimp only [Reloc.rgn, fmtS, simpleValue]; omega), (by dsimp only [Reloc.rgn, fmtS, simpleValue]; omega),
+        fmtSvo_mem _ _ (.inr rfl), (fun hx => by cases hx),
+        ⟨0, (by show loadLE (_ ++ zeros 4 ++ _) _ 4 = _; rw [List.append_assoc]; exact zl_lead_imm _ _ 4), zcond _ _⟩⟩
+
 theorem step_grow (s : State) (op : Op) (hop : op.early = true) (h : Inv s) : Grow s (step s op).1 := by
   have hc := h.cur
   cases op with
@@ -513,6 +526,19 @@ theorem step_grow (s : State) (op : Op) (hop : op.early = true) (h : Inv s) : Gr
         | exact grow_refl s
         | exact grow_emit s _
         | exact grow_newReloc_emit s hc _ _ (a64abs_siteOK s k _ rfl rfl rfl rfl rfl)
+
+  | memAbs k a t =>
+    simp only [step]
+    split
+    · exact grow_refl s
+    · unfold x86MemAbs
+      cases (MKind.ashape s.arch k).moffs with
+      | none => exact grow_x86MemAbsM s hc _ _ _
+      | some mo =>
+        dsimp only
+        split
+        · exact grow_emit s _
+        · exact grow_x86MemAbsM s hc _ _ _
 
 theorem step_rinv (s : State) (op : Op) (hop : op.early = true) (h : Inv s) (hr : RInv s) : RInv (step s op).1 :=
   rinv_grow hr h (step_grow s op hop h)
